@@ -220,3 +220,56 @@ class IsAbstract(Contract):
 
 
 CONTRACTS = [PartStructure(), Characterize(), IsAbstract()]
+
+
+class GenericStructure(Contract):
+    """AbstractModule.structure / AbstractVector.structure: the structure derived from the enzyme's elucidated cut
+    pattern is the documented one (standard.rst): module  site.N^a.(N^k)(NN*N)(N^k).N^a.rc(site);
+    vector  N(N^k)(N^a.rc(site).N*.site.N^a)(N^k)N -- executed symbolically for every qualifying enzyme geometry with the
+    real constants of Bio.Restriction (elucidate() is a constant of the enzyme: D-RESTR)"""
+    props = ("C01", "C04", "C12")
+    role = None
+
+    def __init__(self):
+        self._table = None
+
+    @property
+    def variants(self):
+        if self._table is None:
+            self._table = enzyme_table()
+        seen, out = set(), []
+        for name, info in sorted(self._table.items()):
+            g = (len(info["site"]), info["a"], info["k"])
+            if g in seen and name not in ("BsaI", "BsmBI", "BpiI", "BbsI"):
+                continue
+            seen.add(g)
+            out.append(name)
+        return out
+
+    def setup(self, ex, st, variant):
+        cls = ex.models.sym_class("AbstractModule" if self.role == "module" else "AbstractVector", tm.V("cls", INT))
+        cls.roles = {"AbstractModule" if self.role == "module" else "AbstractVector"}
+        cls.cutter_info = self._table[variant]
+        return dict(cls=cls)
+
+    def ensures(self, ex, pre, st, a, result):
+        if not isinstance(result, VT):
+            return [("returns-a-pattern", tm.FALSE)]
+        return [("derived-structure-has-the-documented-shape", tm.eq(result.t, tm.S(generic_structure(a["cls"].cutter_info, self.role))))]
+
+    def result(self, ex, st, a):
+        info = getattr(a["cls"], "cutter_info", None)
+        if info is not None:
+            return [(st, VT(tm.S(generic_structure(info, self.role))))]
+        return [(st, VT(tm.fresh("structure", STR)))]
+
+
+class ModuleStructure(GenericStructure):
+    file, qual, role = "moclo/moclo/core/modules.py", "AbstractModule.structure", "module"
+
+
+class VectorStructure(GenericStructure):
+    file, qual, role = "moclo/moclo/core/vectors.py", "AbstractVector.structure", "vector"
+
+
+CONTRACTS += [ModuleStructure(), VectorStructure()]
